@@ -89,7 +89,7 @@ def run(tier: str) -> int:
     n_mut = 0
     for fname in ("qb_generic", "qb_postgresql", "qb_mysql", "qb_mssql"):
         fam = fams[fname]
-        labs = [l for l in fam.labels if "#pool" not in l and not l.startswith("auto#")]
+        labs = [l for l in fam.labels if "#pool" not in l and not l.startswith(("auto#", "wrap#"))]
         for sname in ("from", "insert", "update"):
             for l1 in labs:
                 for l2 in labs[:: (1 if tier != "quick" else 3)]:
